@@ -1,6 +1,7 @@
 /-
   C12 — aspect elimination ranks in reverse order of elimination.
-  Property theorems only (helper lemmas: Rdm/Lemmas/HeurAspect.lean, HeurLinks.lean, HeurList.lean).
+  Property theorems only (helper lemmas: Rdm/Lemmas/HeurAspect.lean, HeurLinks.lean, HeurList.lean,
+  HeurH12.lean, HeurH12Spec.lean).
   Structural theorems are generic in the number type and hold for every criteria order handed to
   `aspectCore` (so also for every weight-compatible order when weights are tied) and every number of
   alternatives, criteria and levels; the statements about the descending-weight order are over `Rat`.
@@ -14,6 +15,8 @@ import Rdm.Lemmas.NumRat
 import Rdm.Lemmas.HeurList
 import Rdm.Lemmas.HeurLinks
 import Rdm.Lemmas.HeurAspect
+import Rdm.Lemmas.HeurH12
+import Rdm.Lemmas.HeurH12Spec
 import Mathlib.Tactic.Linarith
 set_option linter.unusedSectionVars false
 set_option linter.unusedSimpArgs false
@@ -242,20 +245,345 @@ theorem descending_order_unique (wc o : List (WCrit Rat)) (hp : o.Perm wc)
   · exact absurd h (not_lt.mpr h2)
   · exact absurd h (not_lt.mpr h1)
 
-/-
-  Not proved (checked on every run by `Spec.C12.check` on the implementation's output and by the
-  bit-exact correspondence of `aspect-evaluate` / `aspect-evaluate-some`):
+/-- **stop rule, what the single survivor passed**: when the procedure ends with one alternative `s`
+    (of at least two, distinct ids), the last elimination `p` — alternative `b`, level `ℓ* = p.2.idx`,
+    criterion `c*` with `crits = pre ++ c* :: post` — is the one that triggered the stop, the survivor
+    reports `ℓ* + 1`, and it was not worse than the threshold on any check made before the stop: every
+    criterion at every level `j' < ℓ*`, every criterion of `pre` (those examined before `c*`) at level
+    `ℓ*`, and — if `s` is examined before `b` (its first index in `alts` is smaller) — `c*` at level
+    `ℓ*` too.  (If `s` comes after `b` it was never compared on `c*` at level `ℓ*`: the loop broke.) -/
+theorem single_survivor_passed_all_checks_before_the_stop (crits : List (Crit α)) (levels : List (KMap α))
+    (alts left : List (Alt α)) (elims : List (AspRes α)) (si : Nat) (hnd : (alts.map (·.id)).Nodup)
+    (h : aspCheck crits levels alts = Except.ok (left, elims, si)) (h2 : 2 ≤ alts.length)
+    (h1 : left.length ≤ 1) :
+    ∃ p s, elims.getLast? = some p ∧ left = [s] ∧ s ∈ alts ∧ si = p.2.idx + 1 ∧
+      ∃ t pre c post b, levels[p.2.idx]? = some t ∧ crits = pre ++ c :: post ∧
+        p = (b.id, elimReport p.2.idx t c) ∧ b ∈ alts ∧
+        (∀ j' < p.2.idx, ∀ t', levels[j']? = some t' → ∀ c' ∈ crits, NotBelowAt s t' c') ∧
+        (∀ c' ∈ pre, NotBelowAt s t c') ∧
+        (idxOf (alts.map (·.id)) s.id < idxOf (alts.map (·.id)) b.id → NotBelowAt s t c) := by
+  unfold aspCheck at h
+  have hl : ¬ alts.length ≤ 1 := by omega
+  simp only [hl, if_false] at h
+  obtain ⟨j, t, pre, c, post, mid, pre_r, b, post_r, hlv, hsi, hsplit, hm1, hm2, hmid, hlast, q0, q1, q2⟩ :=
+    heurH12_levelLoop_stop hnd h2 h h1
+  obtain ⟨_, _, _, p4, _, _⟩ := aspLevelLoop_spec hnd h2 h
+  obtain ⟨s, rfl⟩ : ∃ s, left = [s] := by
+    match left, h1, p4 with
+    | [s], _, _ => exact ⟨s, rfl⟩
+    | [], _, p4 => simp at p4
+    | _ :: _ :: _, h1, _ => simp at h1
+  have hsm : s ∈ mid := hm2.subset (by simp)
+  have hbm : b ∈ mid := by rw [hmid]; simp
+  simp only [Nat.zero_add] at hlast hsi
+  refine ⟨_, s, hlast, rfl, hm1.subset hsm, hsi, t, pre, c, post, b, hlv, hsplit, rfl, hm1.subset hbm,
+    q0 s (by simp), q1 s (by simp), ?_⟩
+  intro hlt
+  apply q2 s (by simp)
+  rw [hmid] at hsm
+  rcases List.mem_append.mp hsm with hs | hs
+  · exact hs
+  · exfalso
+    rcases List.mem_cons.mp hs with rfl | hs
+    · exact Nat.lt_irrefl _ hlt
+    · have hsub : [b, s].Sublist mid := by
+        rw [hmid]
+        exact (List.nil_sublist pre_r).append ((List.singleton_sublist.mpr hs).cons_cons b)
+      have hsub2 : [b.id, s.id].Sublist (alts.map (·.id)) :=
+        (hsub.trans hm1).map (fun x : Alt α => x.id)
+      have := heurH12_findIdx_lt_of_sublist hsub2 hnd
+      unfold idxOf at hlt
+      omega
 
-  theorem single_survivor_passed_all_checks_before_the_stop_partial :
-      a single survivor of ≥ 2 alternatives passed every check before the last elimination's (ℓ*, k*)
-      (proved above: it reports ℓ*+1 — `single_survivor_reports_level_after_last_elimination`; that
-      ≥ 2 survivors passed everything — `several_survivors_passed_everything`)
-  theorem model_output_passes_spec_partial (Rat) :
-      aspectCore crits levels alts = .ok out → ids Nodup → Spec.C12.explainWith alts levels crits out = "ok"
-  The other clauses of the checker are proved above on the model one by one (permutation, links,
-  survivors first, reported check is the failed one, passed all earlier checks, chronological order,
-  at least one survivor, single alternative).
--/
+
+/-! ### the spec checker accepts the model's output -/
+
+/-- **the model's output passes the checker the driver evaluates on the Go code's output**, for ANY
+    criteria order `crits` handed to `aspectCore` (in particular for every weight-compatible order when
+    weights are tied) and any number of alternatives, criteria and levels.  All clauses of
+    `Spec.C12.explainWith`: duplicate-free, permutation, sequential links, survivors (empty map) first,
+    every elimination report well formed with keys (level, criterion rank, position) strictly increasing
+    in chronological order, each report naming the level's threshold, really below it and not below
+    any earlier check, survivors in examination order, and the three survivor cases (single alternative:
+    index 0; single survivor of ≥ 2: index ℓ*+1, passed every check before the stop; ≥ 2 survivors:
+    index #levels, passed everything).
+
+    Hypotheses about the inputs (all decidable): alternative ids and criterion ids pairwise different
+    (the checker rejects duplicate alternative ids itself; criterion ranks are looked up by id), and
+    `hthr`: **every level has a threshold for every criterion**.  The last one is needed because the
+    model's `levelValue` — like the Go map read `t[c.Id]` — yields 0 for a missing key and reports
+    `{c ↦ 0}`, whereas the checker's `below` / `t.get? c.id != some reported` treat a missing threshold
+    as an error ("reported-threshold-is-not-the-level's"); the levels the harness feeds are generated by
+    the registered sources over the criteria list, or explicit lists completed per criterion, so the
+    hypothesis describes the checker's domain.  Missing *alternative* values need no hypothesis: a
+    comparison that was made and did not panic had its value (`NotBelowAt`/`BelowAt` imply it). -/
+theorem model_output_passes_spec_with (crits : List (Crit Rat)) (levels : List (KMap Rat)) (alts : List (Alt Rat))
+    (out : List (Linked (AspEval Rat))) (h : aspectCore crits levels alts = Except.ok out)
+    (hnd : (alts.map (·.id)).Nodup) (hndc : (crits.map (·.id)).Nodup)
+    (hthr : ∀ t ∈ levels, ∀ c ∈ crits, (t.get? c.id).isSome) :
+    Spec.C12.explainWith alts levels crits out = "ok" := by
+  have hperm := result_is_permutation crits levels alts out hnd h
+  obtain ⟨left, elims, si, hc, rfl⟩ := result_is_survivors_then_reverse_eliminated crits levels alts out h
+  obtain ⟨p1, p2, p3, p4, p5, p6, p7⟩ := check_spec crits levels alts left elims si hnd hc
+  obtain ⟨_, o1, o3, o4⟩ := eliminations_are_in_check_order crits levels alts left elims si hndc hnd hc
+  obtain ⟨oS, oE, hout, hoS, hoE⟩ := List.map_eq_append_iff.mp
+    (heurSeq_payload (left.map (fun a => (a.id, (⟨si, []⟩ : AspEval Rat))) ++ elims.reverse))
+  rw [hout] at hperm ⊢
+  -- the entries of the two halves
+  have hSmem : ∀ e ∈ oS, ∃ a ∈ left, a.id = e.id ∧ e.ev = ⟨si, []⟩ := by
+    intro e he
+    have : (e.id, e.ev) ∈ left.map (fun a => (a.id, (⟨si, []⟩ : AspEval Rat))) := by
+      rw [← hoS]; exact List.mem_map.mpr ⟨e, he, rfl⟩
+    obtain ⟨a, ha, hp⟩ := List.mem_map.mp this
+    exact ⟨a, ha, congrArg Prod.fst hp, (congrArg Prod.snd hp).symm⟩
+  have hEmem : ∀ e ∈ oE, (e.id, e.ev) ∈ elims := by
+    intro e he
+    have : (e.id, e.ev) ∈ elims.reverse := by
+      rw [← hoE]; exact List.mem_map.mpr ⟨e, he, rfl⟩
+    exact List.mem_reverse.mp this
+  have hlenS : oS.length = left.length := by
+    have := congrArg List.length hoS; simpa using this
+  have hidsS : oS.map (·.id) = left.map (·.id) := by
+    have := congrArg (List.map Prod.fst) hoS
+    simpa [List.map_map, Function.comp_def] using this
+  have hkeysE : oE.reverse.map (fun e => heurH12_key alts crits (e.id, e.ev)) = elims.map (heurH12_key alts crits) := by
+    have := congrArg (fun l => l.reverse.map (heurH12_key alts crits)) hoE
+    simpa [List.map_map, Function.comp_def, List.map_reverse] using this
+  have hnb : ∀ {a : Alt Rat} {t : KMap Rat} {c : Crit Rat}, t ∈ levels → c ∈ crits → NotBelowAt a t c →
+      Spec.C12.below a t c = some false :=
+    fun ht hc h => heurH12_below_of_model h (hthr _ ht _ hc)
+  have hfind : ∀ {a : Alt Rat} {e : Linked (AspEval Rat)}, a ∈ alts → a.id = e.id →
+      alts.find? (fun x => x.id == e.id) = some a :=
+    fun ha hid => by rw [← hid]; exact heurH12_find_of_mem hnd ha
+  apply heurH12_explainWith_ok hnd (heurH12_isPermIds hperm) (by rw [← hout]; exact heurH12_sequentialLinks _)
+    (key := fun e => heurH12_key alts crits (e.id, e.ev))
+  · -- survivors carry the empty map
+    intro e he
+    obtain ⟨_, _, _, hev⟩ := hSmem e he
+    rw [hev]; rfl
+  · -- eliminated entries carry a one-entry map
+    intro e he
+    obtain ⟨j, t, _, _, pre, c, post, _, r1, _⟩ := p3 _ (hEmem e he)
+    simp only at r1
+    rw [r1]; rfl
+  · -- their keys are well formed
+    intro e he
+    obtain ⟨j, t, _, _, pre, c, post, hsplit, r1, _⟩ := p3 _ (hEmem e he)
+    simp only at r1
+    exact heurH12_keyOf (c := c) (by rw [hsplit]; simp) (by rw [r1]; rfl)
+  · -- strictly increasing in chronological order
+    rw [hkeysE]
+    exact heurH12_strictlyIncreasing (heurH12_keys_pairwise hnd o1 o3 o4)
+  · -- each elimination report is the first failed check
+    intro e he
+    obtain ⟨j, t, hj, hlv, pre, c, post, hsplit, r1, a, ha, hid, hb, hpre, hearlier⟩ := p3 _ (hEmem e he)
+    simp only at hj r1 hid
+    subst hj
+    have htl : t ∈ levels := List.mem_of_getElem? hlv
+    have hcc : c ∈ crits := by rw [hsplit]; simp
+    refine heurH12_eliminatedOk hnd hndc ha hid hlv hsplit (by rw [r1]; rfl)
+      (hthr t htl c hcc) (heurH12_below_of_model hb (hthr t htl c hcc)) ?_
+    apply heurH12_passesBefore
+    intro li t' ki c' hl' hc' hcond
+    have hc'm : c' ∈ crits := List.mem_of_getElem? hc'
+    rcases hcond with hlt | ⟨rfl, hk | ⟨hf, _⟩⟩
+    · exact hnb (List.mem_of_getElem? hl') hc'm (hearlier li hlt t' hl' c' hc'm)
+    · have : t' = t := by rw [hl'] at hlv; exact Option.some.inj hlv
+      subst this
+      have hc'p : c' ∈ pre := by
+        rw [hsplit, List.getElem?_append_left hk] at hc'
+        exact List.mem_of_getElem? hc'
+      exact hnb htl hc'm (hpre c' hc'p)
+    · exact absurd hf (by simp)
+  · -- survivors in examination order
+    have : oS.map (fun e => ((0 : Nat), (0 : Nat), Spec.C12.idxOfStr (alts.map (·.id)) e.id))
+        = (oS.map (·.id)).map (fun x => ((0 : Nat), (0 : Nat), Spec.C12.idxOfStr (alts.map (·.id)) x)) := by
+      rw [List.map_map]; rfl
+    rw [this, hidsS]
+    exact heurH12_spos (p2.map _) hnd
+  · -- at least one survivor
+    intro hne hnil
+    have := p4 hne
+    rw [hnil] at hlenS
+    simp at hlenS
+    omega
+  · -- a single alternative reports index 0
+    intro hl1 s hs
+    obtain ⟨_, _, _, hev⟩ := hSmem s hs
+    rw [hev, (p6 (by omega)).2.2]
+  · -- the single survivor of ≥ 2 alternatives
+    intro s hs hl2
+    have hleft1 : left.length ≤ 1 := by rw [← hlenS, hs]; simp
+    obtain ⟨p, sa, hlast, hleft, hsa, hsi, t, pre, c, post, b, hlv, hsplit, hp, hb, q0, q1, q2⟩ :=
+      single_survivor_passed_all_checks_before_the_stop crits levels alts left elims si hnd hc hl2 hleft1
+    obtain ⟨a, ha, hid, hev⟩ := hSmem s (by rw [hs]; simp)
+    rw [hleft] at ha
+    have : a = sa := by simpa using ha
+    subst this
+    have htl : t ∈ levels := List.mem_of_getElem? hlv
+    have hk : critRank crits p = pre.length := by
+      rw [hp, hsplit]
+      show ((pre ++ c :: post).map (·.id)).findIdx (· == c.id) = pre.length
+      exact heurH12_findIdx_split (·.id) pre c post (by rw [← hsplit]; exact hndc)
+    refine ⟨p.2.idx, critRank crits p, Spec.C12.idxOfStr (alts.map (·.id)) p.1, a, ?_, hfind hsa hid, ?_, ?_⟩
+    · rw [hkeysE, List.getLast?_map, hlast]; rfl
+    · rw [hev, hsi]
+    · apply heurH12_passesBefore
+      intro li t' ki c' hl' hc' hcond
+      have hc'm : c' ∈ crits := List.mem_of_getElem? hc'
+      rcases hcond with hlt | ⟨rfl, hkk | ⟨hf, rfl⟩⟩
+      · exact hnb (List.mem_of_getElem? hl') hc'm (q0 li hlt t' hl' c' hc'm)
+      · have : t' = t := by rw [hl'] at hlv; exact Option.some.inj hlv
+        subst this
+        have hc'p : c' ∈ pre := by
+          rw [hk] at hkk
+          rw [hsplit, List.getElem?_append_left hkk] at hc'
+          exact List.mem_of_getElem? hc'
+        exact hnb htl hc'm (q1 c' hc'p)
+      · have : t' = t := by rw [hl'] at hlv; exact Option.some.inj hlv
+        subst this
+        have : c' = c := by
+          rw [hk, hsplit] at hc'
+          simpa using hc'.symm
+        subst this
+        apply hnb htl hc'm
+        apply q2
+        have hf' := of_decide_eq_true hf
+        rw [hp] at hf'
+        rw [← hid] at hf'
+        exact hf'
+  · -- several survivors passed everything
+    intro hl2 s hs
+    obtain ⟨a, ha, hid, hev⟩ := hSmem s hs
+    obtain ⟨r1, r2⟩ := p7 (by omega)
+    refine ⟨by rw [hev, r1], a, hfind (p2.subset ha) hid, ?_⟩
+    apply heurH12_passesAll
+    intro t ht c hc
+    exact hnb ht hc (r2 a ha t ht c hc)
+
+/-- the same with the checker called exactly as the driver op `check-c12` (`Ops.opCheckC12`) calls it —
+    `alts` = the ordered considered alternatives (`OrderAlternatives`), `wc` = criteria zipped with the
+    weights, `lvl` = the levels — for ANY examination order `order wc` that is a permutation of `wc`
+    in non-increasing weight (what `sort.Slice` can produce when weights are tied).  When exactly one
+    order is weight-compatible the checker demands that one (it is `order wc`); otherwise it accepts
+    an output explained by some compatible order, and `order wc` is one.  Distinct ids of the
+    considered alternatives carry over to `alts` because ordering is a permutation. -/
+theorem model_output_passes_spec_for_order (d : DMP Rat) (ds ds' : Draws Rat) (fn : String) (lv : Levels Rat)
+    (seed : Int) (w : KMap Rat) (rnd : Bool) (lvl : List (KMap Rat))
+    (order : List (WCrit Rat) → List (WCrit Rat)) (alts : List (Alt Rat)) (wc : List (WCrit Rat))
+    (out : List (Linked (AspEval Rat)))
+    (hmp : d.mp = .aspect fn lv seed w rnd)
+    (hev : aspectEvaluateWith d ds (Except.ok lvl) order = Except.ok out)
+    (halts : orderAlternatives rnd d.co ds = Except.ok (alts, ds'))
+    (hwc : zipWithWeights d.crit w = Except.ok wc)
+    (hperm : (order wc).Perm wc) (hdesc : Spec.C12.descending (order wc) = true)
+    (hnd : (d.co.map (·.id)).Nodup) (hndc : (d.crit.map (·.id)).Nodup)
+    (hthr : ∀ t ∈ lvl, ∀ c ∈ d.crit, (t.get? c.id).isSome) :
+    Spec.C12.check alts wc lvl out = true := by
+  unfold aspectEvaluateWith at hev
+  rw [hmp] at hev
+  simp only [R.bind_ok, halts, hwc] at hev
+  have hcrit : wc.map (·.crit) = d.crit := heurH12_zipWithWeights_crit hwc
+  have hpc : ((order wc).map (·.crit)).Perm d.crit := by rw [← hcrit]; exact hperm.map _
+  apply heurH12_check_of_compatible hperm hdesc
+  apply model_output_passes_spec_with _ _ _ _ hev
+  · exact ((orderAlternatives_perm rnd d.co ds alts ds' halts).map (·.id)).nodup_iff.mpr hnd
+  · exact ((hpc.map (·.id)).nodup_iff).mpr hndc
+  · intro t ht c hc
+    exact hthr t ht c (hpc.subset hc)
+
+/-- **`Spec.C12.check` accepts the model's output** (`aspectEvaluateWith … sortCriteriaDesc`, the model of
+    `Evaluate` that the bit-exact correspondence ties to the Go code), with the checker's arguments
+    plumbed as in the driver op `check-c12`. -/
+theorem model_output_passes_spec (d : DMP Rat) (ds ds' : Draws Rat) (fn : String) (lv : Levels Rat)
+    (seed : Int) (w : KMap Rat) (rnd : Bool) (lvl : List (KMap Rat))
+    (alts : List (Alt Rat)) (wc : List (WCrit Rat)) (out : List (Linked (AspEval Rat)))
+    (hmp : d.mp = .aspect fn lv seed w rnd)
+    (hev : aspectEvaluateWith d ds (Except.ok lvl) sortCriteriaDesc = Except.ok out)
+    (halts : orderAlternatives rnd d.co ds = Except.ok (alts, ds'))
+    (hwc : zipWithWeights d.crit w = Except.ok wc)
+    (hnd : (d.co.map (·.id)).Nodup) (hndc : (d.crit.map (·.id)).Nodup)
+    (hthr : ∀ t ∈ lvl, ∀ c ∈ d.crit, (t.get? c.id).isSome) :
+    Spec.C12.check alts wc lvl out = true :=
+  model_output_passes_spec_for_order d ds ds' fn lv seed w rnd lvl sortCriteriaDesc alts wc out hmp hev halts hwc
+    (sortCriteriaDesc_sorted wc).1 (heurH12_descending (sortCriteriaDesc_sorted wc).2) hnd hndc hthr
+
+/-- the same for `aspectEvaluate` (levels obtained from the registered sources by `aspectLevels`) -/
+theorem model_output_of_evaluate_passes_spec (d : DMP Rat) (ds ds' : Draws Rat) (fn : String) (lv : Levels Rat)
+    (seed : Int) (w : KMap Rat) (rnd : Bool) (lvl : List (KMap Rat))
+    (alts : List (Alt Rat)) (wc : List (WCrit Rat)) (out : List (Linked (AspEval Rat)))
+    (hmp : d.mp = .aspect fn lv seed w rnd) (hlv : aspectLevels d = Except.ok lvl)
+    (hev : aspectEvaluate d ds = Except.ok out)
+    (halts : orderAlternatives rnd d.co ds = Except.ok (alts, ds'))
+    (hwc : zipWithWeights d.crit w = Except.ok wc)
+    (hnd : (d.co.map (·.id)).Nodup) (hndc : (d.crit.map (·.id)).Nodup)
+    (hthr : ∀ t ∈ lvl, ∀ c ∈ d.crit, (t.get? c.id).isSome) :
+    Spec.C12.check alts wc lvl out = true := by
+  unfold aspectEvaluate at hev
+  rw [hlv] at hev
+  exact model_output_passes_spec d ds ds' fn lv seed w rnd lvl alts wc out hmp hev halts hwc hnd hndc hthr
+
+/-! ### the hypotheses are satisfiable: concrete instances -/
+
+section Examples
+private def exC : Crit Rat := ⟨"c", "gain", none⟩
+private def exK : Crit Rat := ⟨"k", "cost", none⟩
+private def exA : Alt Rat := ⟨"a", [("c", 1), ("k", 2)]⟩
+private def exB : Alt Rat := ⟨"b", [("c", 5), ("k", 7)]⟩
+private def exD : Alt Rat := ⟨"d", [("c", 4), ("k", 1)]⟩
+
+/-- two alternatives, one gain criterion, one level: `a` (1 < 3) is eliminated, `b` is left and reports 0+1 -/
+example : Spec.C12.explainWith [exA, exB] [[("c", 3)]] [exC]
+    [⟨"b", ⟨1, []⟩, ["a"]⟩, ⟨"a", ⟨0, [("c", 3)]⟩, []⟩] = "ok" :=
+  model_output_passes_spec_with [exC] [[("c", 3)]] [exA, exB] _ (by with_unfolding_all rfl)
+    (by decide) (by decide) (by decide)
+
+/-- three alternatives, gain and cost criterion, two levels: `a` fails c at level 0, `b` fails the cost
+    criterion k (7 > 5) at level 0 — the stop; `d`, examined after `b`, reports 1 -/
+example : Spec.C12.explainWith [exA, exB, exD] [[("c", 3), ("k", 5)], [("c", 4), ("k", 5)]] [exC, exK]
+    [⟨"d", ⟨1, []⟩, ["b"]⟩, ⟨"b", ⟨0, [("k", 5)]⟩, ["a"]⟩, ⟨"a", ⟨0, [("c", 3)]⟩, []⟩] = "ok" :=
+  model_output_passes_spec_with [exC, exK] [[("c", 3), ("k", 5)], [("c", 4), ("k", 5)]] [exA, exB, exD] _
+    (by with_unfolding_all rfl) (by decide) (by decide) (by decide)
+
+/-- nobody fails: all three survive in examination order and report #levels -/
+example : Spec.C12.explainWith [exA, exB, exD] [[("c", 0), ("k", 9)]] [exK, exC]
+    [⟨"a", ⟨1, []⟩, ["b"]⟩, ⟨"b", ⟨1, []⟩, ["d"]⟩, ⟨"d", ⟨1, []⟩, []⟩] = "ok" :=
+  model_output_passes_spec_with [exK, exC] [[("c", 0), ("k", 9)]] [exA, exB, exD] _
+    (by with_unfolding_all rfl) (by decide) (by decide) (by decide)
+
+private def exDmp (w : KMap Rat) : DMP Rat :=
+  ⟨[], [exA, exB, exD], [exC, exK], .aspect "thresholds" (.thresholds []) 0 w false⟩
+
+private theorem exSort : sortCriteriaDesc [(⟨exC, 1⟩ : WCrit Rat), ⟨exK, 2⟩] = [⟨exK, 2⟩, ⟨exC, 1⟩] :=
+  (descending_order_unique _ _ (List.Perm.swap _ _ _) (by simp)).symm
+
+/-- the full statement on a decision problem with distinct weights (k heavier than c, examined first) -/
+example : Spec.C12.check [exA, exB, exD] [⟨exC, 1⟩, ⟨exK, 2⟩] [[("c", 3), ("k", 5)]]
+    [⟨"d", ⟨1, []⟩, ["a"]⟩, ⟨"a", ⟨0, [("c", 3)]⟩, ["b"]⟩, ⟨"b", ⟨0, [("k", 5)]⟩, []⟩] = true := by
+  refine model_output_passes_spec (exDmp [("c", 1), ("k", 2)]) [] [] "thresholds" (.thresholds []) 0
+    [("c", 1), ("k", 2)] false [[("c", 3), ("k", 5)]] [exA, exB, exD] [⟨exC, 1⟩, ⟨exK, 2⟩] _ rfl ?_
+    (by with_unfolding_all rfl) (by with_unfolding_all rfl) (by decide) (by decide) (by decide)
+  have h : aspectEvaluateWith (exDmp [("c", 1), ("k", 2)]) [] (Except.ok [[("c", 3), ("k", 5)]]) sortCriteriaDesc
+      = aspectCore ((sortCriteriaDesc [(⟨exC, 1⟩ : WCrit Rat), ⟨exK, 2⟩]).map (·.crit)) [[("c", 3), ("k", 5)]]
+          [exA, exB, exD] := by with_unfolding_all rfl
+  rw [h, exSort]
+  with_unfolding_all rfl
+
+/-- tied weights: the order the criteria were given in is weight-compatible, and so is its reverse -/
+example : Spec.C12.check [exA, exB, exD] [⟨exC, 1⟩, ⟨exK, 1⟩] [[("c", 3), ("k", 5)]]
+    [⟨"d", ⟨1, []⟩, ["b"]⟩, ⟨"b", ⟨0, [("k", 5)]⟩, ["a"]⟩, ⟨"a", ⟨0, [("c", 3)]⟩, []⟩] = true :=
+  model_output_passes_spec_for_order (exDmp [("c", 1), ("k", 1)]) [] [] "thresholds" (.thresholds []) 0
+    [("c", 1), ("k", 1)] false [[("c", 3), ("k", 5)]] id [exA, exB, exD] [⟨exC, 1⟩, ⟨exK, 1⟩] _ rfl
+    (by with_unfolding_all rfl) (by with_unfolding_all rfl) (by with_unfolding_all rfl) (List.Perm.refl _)
+    (by decide +kernel) (by decide) (by decide) (by decide)
+
+example : Spec.C12.check [exA, exB, exD] [⟨exC, 1⟩, ⟨exK, 1⟩] [[("c", 3), ("k", 5)]]
+    [⟨"d", ⟨1, []⟩, ["a"]⟩, ⟨"a", ⟨0, [("c", 3)]⟩, ["b"]⟩, ⟨"b", ⟨0, [("k", 5)]⟩, []⟩] = true :=
+  model_output_passes_spec_for_order (exDmp [("c", 1), ("k", 1)]) [] [] "thresholds" (.thresholds []) 0
+    [("c", 1), ("k", 1)] false [[("c", 3), ("k", 5)]] List.reverse [exA, exB, exD] [⟨exC, 1⟩, ⟨exK, 1⟩] _ rfl
+    (by with_unfolding_all rfl) (by with_unfolding_all rfl) (by with_unfolding_all rfl) (List.reverse_perm _)
+    (by decide +kernel) (by decide) (by decide) (by decide)
+end Examples
 
 /-- the constants and names this property depends on were re-read from the working tree on this run
     (none fell back to its pinned value because its declaration could not be located) -/
